@@ -2,7 +2,8 @@
     refutation of the global fixed-point statement for the unchanged updateScores. *)
 From Coq Require Import ZArith NArith List Bool Lia.
 From Texel Require Import gen.BookConsts BookGraph.NMap BookGraph.BookGraph BookGraph.Equations
-  BookGraph.ScoreFacts BookGraph.CodecProofs BookGraph.LocalProofs BookGraph.LinkProofs BookGraph.UniqueProofs.
+  BookGraph.ScoreFacts BookGraph.CodecProofs BookGraph.LocalProofs BookGraph.LinkProofs BookGraph.UniqueProofs
+  BookGraph.FixProofs BookGraph.GlobalProofs.
 Import ListNotations.
 Local Open Scope Z_scope.
 
@@ -225,3 +226,46 @@ Example demo_record :
   record_of 12345678 796 (-20) 10000 = [78; 97; 188; 0; 0; 0; 0; 0; 28; 3; 236; 255; 16; 39; 0; 0]%N /\
   deserialize_fields SERIALIZE_FIELDS (record_of 12345678 796 (-20) 10000) = [12345678; 796; -20; 10000].
 Proof. vm_compute. split; reflexivity. Qed.
+
+(** fixpoint_partial: the transposition example is a history the theorem covers (rank = hash,
+    white to move at nodes 1 and 4) *)
+Definition demo_rk (n : N) : Z := Z.of_N n.
+Definition demo_wtm (n : N) : bool := N.eqb n 1 || N.eqb n 4.
+
+Lemma demo_succ_cases : forall p m c, demo_succ p m = Some c ->
+  (p = 1 /\ c = 2)%N \/ (p = 1 /\ c = 3)%N \/ (p = 2 /\ c = 4)%N \/ (p = 3 /\ c = 4)%N.
+Proof.
+  intros p m c H. unfold demo_succ in H.
+  destruct (N.eqb p 1 && N.eqb m 10) eqn:E1.
+  { apply andb_prop in E1. destruct E1 as [A _]. apply N.eqb_eq in A. inversion H. tauto. }
+  destruct (N.eqb p 1 && N.eqb m 11) eqn:E2.
+  { apply andb_prop in E2. destruct E2 as [A _]. apply N.eqb_eq in A. inversion H. tauto. }
+  destruct (N.eqb p 2 && N.eqb m 20) eqn:E3.
+  { apply andb_prop in E3. destruct E3 as [A _]. apply N.eqb_eq in A. inversion H. tauto. }
+  destruct (N.eqb p 3 && N.eqb m 21) eqn:E4.
+  { apply andb_prop in E4. destruct E4 as [A _]. apply N.eqb_eq in A. inversion H. tauto. }
+  discriminate.
+Qed.
+
+Example demo_oracle :
+  (forall p m c, demo_succ p m = Some c -> demo_rk p < demo_rk c) /\
+  (forall p m c, demo_succ p m = Some c -> demo_wtm c = negb (demo_wtm p)) /\ demo_wtm 1 = true.
+Proof.
+  split; [|split; [|reflexivity]]; intros p m c H; apply demo_succ_cases in H;
+    destruct H as [[-> ->]|[[-> ->]|[[-> ->]|[-> ->]]]]; unfold demo_rk; try reflexivity; lia.
+Qed.
+
+Example demo_ops_ok : ops_ok demo_succ true bd0 (newBook 1 100) demo_ops.
+Proof.
+  pose proof demo_wf as W. unfold demo_ops in *. cbn [ops_wf ops_ok] in *.
+  destruct W as [W1 [W2 [W3 [W4 [W5 [W6 [W7 [W8 _]]]]]]]].
+  split. { split; [exact W1|]. split; [discriminate|vm_compute; reflexivity]. }
+  split. { split; [exact W2|]. split; [discriminate|vm_compute; reflexivity]. }
+  split. { split; [exact W3|]. split; [discriminate|vm_compute; reflexivity]. }
+  split. { split; [exact W4|exact I]. }
+  split. { split; [exact W5|exact I]. }
+  split. { split; [exact W6|exact I]. }
+  split. { split; [exact W7|exact I]. }
+  split. { split; [exact W8|]. vm_compute. tauto. }
+  exact I.
+Qed.
